@@ -66,6 +66,9 @@ def cases(tier, seed):
     # B B' = inv(C)
     for si, ti in itertools.product(range(len(COV_SHAPES)), range(len(COV_THETAS))):
         yield "covmodel", dict(shape=si, theta=ti)
+    # very small and very large amplitudes (uJy sources in a Jy image): the errors are those of the same inverse Fisher matrix
+    for amp, ti in itertools.product([2e-6, -1e-7, 3e5, 1e-9], [1, 2]):
+        yield "scales", dict(amp=amp, ti=ti)
     lat = comp_lattice(seed)
     for ci in range(len(lat)):
         yield "n1", dict(ci=ci)
@@ -163,10 +166,17 @@ def check_one(comps, free, pset_name, pmask, variant, ctx, do_errors=True):
         fisher = Jr.T.dot(np.linalg.inv(C)).dot(Jr)
     else:
         fisher = refw.T.dot(refw)
-    if not np.all(np.isfinite(fisher)) or np.linalg.cond(fisher) > 1e10:
+    # the Fisher matrix is badly SCALED when amplitudes are tiny or huge (amp row ~ 1/rms^2, the others ~ amp^2/rms^2): invert
+    # it after normalising its diagonal to one; only a matrix that is ill conditioned after that is left undecided
+    sc_ = np.sqrt(np.diag(fisher)) if np.all(np.isfinite(fisher)) else np.array([np.nan])
+    if not (np.all(np.isfinite(sc_)) and np.all(sc_ > 0)):
         ctx.outcome("errors:illconditioned")
         return
-    ref_sig = np.sqrt(np.diag(np.linalg.inv(fisher)))
+    fn_ = fisher / np.outer(sc_, sc_)
+    if np.linalg.cond(fn_) > 1e10:
+        ctx.outcome("errors:illconditioned")
+        return
+    ref_sig = np.sqrt(np.diag(np.linalg.inv(fn_))) / sc_
     data = np.where(pmask, 1.0, np.nan)
     ctx.count("covar_errors")
     keepB, keepC, keepD = (None if B is None else B.copy()), (None if C is None else C.copy()), data.copy()
@@ -238,6 +248,21 @@ def ev_n1(case, ctx):
                 check_one([c], free, pname, pm, v, ctx)
 
 
+def ev_scales(case, ctx):
+    c = (case["amp"], 5.3, 6.1, 3.0, 2.0, THETAS[case["ti"]] + core.seed_shift(ctx.seed, 8, 5.0))
+    ps = pixel_sets()
+    for m in range(1, 64):
+        free = [mask_bits(m)]
+        for v in ("none", "B", "C", "errs+C"):
+            ctx.nontrivial_n(1)
+            check_one([c], free, "full", ps["full"], v, ctx)
+    # two components of very different brightness
+    c2 = (1.0, 7.0, 4.5, 2.0, 3.5, 10.0)
+    for m in (63, 0b111110, 0b000111, 0b100001):
+        ctx.nontrivial_n(1)
+        check_one([c, c2], [mask_bits(m), mask_bits(63)], "full", ps["full"], "none", ctx)
+
+
 def ev_n2(case, ctx):
     lat = comp_lattice(ctx.seed)
     a, b = lat[case["a"]], lat[case["b"]]
@@ -280,4 +305,6 @@ def ev_nk(case, ctx):
 def evaluate(clause, case, ctx):
     if clause == "covmodel":
         return ev_covmodel(case, ctx)
+    if clause == "scales":
+        return ev_scales(case, ctx)
     dict(n1=ev_n1, n2=ev_n2, nk=ev_nk)[clause](case, ctx)
